@@ -134,20 +134,36 @@ def rule_error_selection(ctx):
     checks = [
         ("explicit-filter", ["let explicit=iter.clone().filter(|(_,_,info)|matches!(value(info),Some(true)))"], "explicit candidates are exactly the fields whose attribute value is `Some(true)`"),
         ("inferred-filter", ["let inferred=iter.filter(|(_,field,info)|match value(info){None=>is_valid_default_field_for_attr(attr,field,len),_=>false})"], "inferred candidates are the un-annotated (`None`) fields accepted by the layout's default predicate; `Some(false)` never qualifies"),
-        ("explicit-unique", ["let field=assert_iter_contains_zero_or_one_item(explicit,"], "two explicit candidates are an error"),
-        ("precedence", ["let field=match field{field@Some(_)=>field,None=>assert_iter_contains_zero_or_one_item(inferred,"], "explicit beats inferred; two inferred candidates are an error"),
+        ("explicit-unique", ["let first=assert_iter_contains_zero_or_one_item(explicit,"], "two explicit candidates are an error"),
+        ("precedence", ["let chosen=match first{first@Some(_)=>first,None=>assert_iter_contains_zero_or_one_item(inferred,"], "explicit beats inferred; two inferred candidates are an error"),
     ]
-    # the closures `value` / `is_valid_default_field_for_attr` are parameters: wildcarded like locals
+    # roles instead of names: the first parameter is the layout's default predicate, the last one reads the attribute's
+    # value, and the helper that turns "at most one candidate" into an error is whatever both candidate lists go through
+    prm = [A.pat_idents(p_["0"]["pat"]) for p_ in fn.node["sig"]["inputs"] if A.kind(p_) == "FnArg::Typed"]
+    if len(prm) != 5 or any(len(x) != 1 for x in prm):
+        raise A.AnchorLost(f"{ERR}::parse_field_impl", f"parameters {prm}")
+    p_default, p_value = prm[0][0], prm[4][0]
+    helpers = re.findall(r"=(\w+)\((?:explicit|inferred|\w+),&?(?:format!|\")", t)
+    hm = re.findall(r"(\w+)\(\w+,(?:&format!\(|\")", t)
+    helper = max(set(hm), key=hm.count) if hm else None
+    if helper is None or hm.count(helper) != 2:
+        raise A.AnchorLost(f"{ERR}::parse_field_impl", f"'at most one candidate' helper (calls found: {hm})")
+
+    def canon(x):
+        return x.replace(p_value + "(", "VALUE(").replace(p_default + "(", "DEFAULT(").replace(helper + "(", "ATMOSTONE(")
+
+    tc = canon(t)
+    checks = [(k_, [pp.replace("value(", "VALUE(").replace("is_valid_default_field_for_attr(", "DEFAULT(").replace("assert_iter_contains_zero_or_one_item(", "ATMOSTONE(") for pp in pats], w_) for k_, pats, w_ in checks]
     for key, pats, what in checks:
         ctx.instance(f"parse_field_impl:{key}")
-        if not any(A.wsearch(t.replace("value(", "VALUE(").replace("is_valid_default_field_for_attr(", "DEFAULT("), p_.replace("value(", "VALUE(").replace("is_valid_default_field_for_attr(", "DEFAULT(")) for p_ in pats):
+        if not any(A.wsearch(tc, p_) for p_ in pats):
             ctx.report(f"errsel:{key}", where, f"`parse_field_impl` lost the rule: {what}", {"text": t[:500]})
-    az = A.get_fn(ctx.files, ERR, "assert_iter_contains_zero_or_one_item")
+    az = A.get_fn(ctx.files, ERR, helper)
     t = A.fn_text(az)
     ctx.instance("zero-or-one")
-    if not re.search(r"let Some\(item\)=iter\.next\(\) else\{?return Ok\(None\)", t.replace(" else {", " else{")) and "iter.next()" not in t:
-        ctx.report("errsel:zero-or-one", ctx.where(f, az.node), "`assert_iter_contains_zero_or_one_item` changed", {})
-    if "if let Some((_,field,_))=iter.next(){return Err(Error::new(field.span(),error_msg))}" not in t:
+    if A.wsearch(t, "let Some(item)=iter.next() else {return Ok(None)}") is None:
+        ctx.report("errsel:zero-or-one", ctx.where(f, az.node), f"`{helper}` no longer returns `Ok(None)` for an empty candidate list", {})
+    if A.wsearch(t, "if let Some((_,field,_))=iter.next(){return Err(Error::new(field.span(),error_msg))}") is None:
         ctx.report("errsel:ambiguity-error", ctx.where(f, az.node), "a second candidate no longer produces a compile error (an arbitrary field would be chosen)", {"text": t})
     # default predicates
     pf = A.get_fn(ctx.files, ERR, "parse_fields")
@@ -164,11 +180,44 @@ def rule_error_selection(ctx):
         if not any(A.wsearch(t, p_) for p_ in pats):
             ctx.report(f"errsel:default:{key}", ctx.where(f, pf.node), f"default source/backtrace inference changed ({what})", {})
     inf = A.get_fn(ctx.files, ERR, "infer_source_field")
-    t = A.fn_text(inf)
-    ctx.instance("infer_source_field")
-    for part in ("if fields.len()!=2{return None}", "if parsed_fields.source.is_some(){return None}", "let source=(backtrace+1)%2", "infos[source].info.source!=Some(false)"):
-        if part not in t:
-            ctx.report(f"errsel:two-field:{part}", ctx.where(f, inf.node), f"two-field inference lost `{part}`", {})
+    # OPT-ALG: the two-field inference is evaluated on every combination of its observations and compared with the
+    # documented table: exactly two fields, no source yet, a backtrace field at position b -> the *other* field,
+    # unless that field is marked `not(source)`
+    from .. import optalg as O
+
+    prm = [A.pat_idents(p_["0"]["pat"]) for p_ in inf.node["sig"]["inputs"] if A.kind(p_) == "FnArg::Typed"]
+    if len(prm) != 2 or any(len(x) != 1 for x in prm):
+        raise A.AnchorLost(f"{ERR}::infer_source_field", f"parameters {prm}")
+    P1, P2 = prm[0][0], prm[1][0]
+    bad = []
+    n_cases = 0
+    for n_ in (1, 2, 3):
+        for src in (O.NONE, O.some(0)):
+            for bt in (O.NONE, O.some(0), O.some(1)):
+                for s0 in (O.NONE, O.some(True), O.some(False)):
+                    for s1 in (O.NONE, O.some(True), O.some(False)):
+                        env = {f"{P1}.len()": n_, f"{P2}.source": src, f"{P2}.backtrace": bt, f"{P2}.data.infos[0].info.source": s0, f"{P2}.data.infos[1].info.source": s1}
+                        _e, out = O.run_fn_body(inf.block["stmts"], env)
+                        got = out[1]
+                        if n_ != 2 or src != O.NONE or bt == O.NONE:
+                            want = O.NONE
+                        else:
+                            other = (bt[1] + 1) % 2
+                            want = O.NONE if (s0, s1)[other] == O.some(False) else O.some(other)
+                        n_cases += 1
+                        if got != want:
+                            bad.append(({"fields": n_, "source": src, "backtrace": bt, "not(source)": (s0, s1)}, got, want))
+    ctx.cur.instances += n_cases
+    ctx.instance("infer_source_field", sample={"cases": n_cases, "disagreements": len(bad)})
+    if bad:
+        c0, got, want = bad[0]
+        ctx.report(
+            "errsel:two-field",
+            ctx.where(f, inf.node),
+            f"the two-field inference `infer_source_field` disagrees with the documented table in {len(bad)} of {n_cases} cases, e.g. {c0}: it yields {got} instead of {want} "
+            "(exactly two fields, no source selected yet, backtrace at position b -> the other field unless that field is `not(source)`)",
+            {"cases": [str(b[0]) for b in bad[:6]]},
+        )
     # ignored variants: the loop runs over the enabled variants only
     re_fn = A.get_fn(ctx.files, ERR, "render_enum")
     loops = [x for x, _ in A.find(re_fn.block, "Expr::ForLoop")]
